@@ -278,7 +278,14 @@ func c12Writer(r *eng.Run) {
 			m := append(append([]byte("shared prefix shared prefix "), base...), byte('0'+i))
 			out := NewPipe(r, nil)
 			w.Reset(out)
-			_, e1 := w.Write(m)
+			var e1 error
+			if i > 0 && r.T.Chance(sim.LHist, 1, 4) {
+				// An empty message, sent without a Write call.
+				m = nil
+				r.Probe("reused_writer_sends_an_empty_message_without_a_write")
+			} else {
+				_, e1 = w.Write(m)
+			}
 			e2 := w.Flush()
 			var e3 error
 			if r.T.Bool(sim.LHist) {
